@@ -138,6 +138,7 @@ func (p *Program) extraDecls(used map[string]bool, allOps map[string]bool) strin
 	if allOps["str_len"] || allOps["str_at"] {
 		sb.WriteString(strAxioms)
 	}
+
 	for _, part := range preludeParts {
 		for _, s := range part.syms {
 			if allOps[s] {
@@ -181,7 +182,9 @@ func (p *Program) extraDecls(used map[string]bool, allOps map[string]bool) strin
 }
 
 // mathAxioms: ground instances of facts about ln/exp/pow for the applications occurring in ts
-func mathAxioms(ts []*Term) []*Term {
+func mathAxioms(ts []*Term) []*Term { return mathAxiomsOpt(ts, true) }
+
+func mathAxiomsOpt(ts []*Term, pairwise bool) []*Term {
 	var lns, exps, pows, sqrts []*Term
 	seen := map[*Term]bool{}
 	for _, t := range ts {
@@ -211,7 +214,13 @@ func mathAxioms(ts []*Term) []*Term {
 			Implies(And(Gt(x, zero), Lt(x, one)), Lt(l, zero)),
 			Implies(Gt(x, zero), Le(l, Sub(x, one))))
 	}
+	if len(lns) > 4 || len(exps) > 4 {
+		pairwise = false
+	}
 	for i, a := range lns {
+		if !pairwise {
+			break
+		}
 		for _, b := range lns[i+1:] {
 			x, y := a.Args[0], b.Args[0]
 			out = append(out, Implies(And(Gt(x, zero), Gt(y, zero)), And(Eq(Lt(x, y), Lt(a, b)), Eq(Eq(x, y), Eq(a, b)))))
@@ -223,6 +232,9 @@ func mathAxioms(ts []*Term) []*Term {
 			Eq(Gt(x, zero), Gt(e, one)))
 	}
 	for i, a := range exps {
+		if !pairwise {
+			break
+		}
 		for _, b := range exps[i+1:] {
 			x, y := a.Args[0], b.Args[0]
 			out = append(out, And(Eq(Lt(x, y), Lt(a, b)), Eq(Eq(x, y), Eq(a, b))))
@@ -253,6 +265,137 @@ type Query struct {
 
 func (p *Program) buildQuery(o *Obligation, unfoldDepth int) string {
 	return p.buildQueryOpt(o, unfoldDepth, false)
+}
+
+// rewriteIte simplifies ite terms whose condition (or its negation) is among the asserted facts.
+func rewriteIte(t *Term, facts map[*Term]bool, cache map[*Term]*Term) *Term {
+	if len(t.Args) == 0 {
+		return t
+	}
+	if r, ok := cache[t]; ok {
+		return r
+	}
+	var r *Term
+	if t.Op == "ite" {
+		c := rewriteIte(t.Args[0], facts, cache)
+		switch {
+		case facts[c]:
+			r = rewriteIte(t.Args[1], facts, cache)
+		case facts[Not(c)]:
+			r = rewriteIte(t.Args[2], facts, cache)
+		}
+	}
+	if r == nil {
+		changed := false
+		args := make([]*Term, len(t.Args))
+		for i, a := range t.Args {
+			args[i] = rewriteIte(a, facts, cache)
+			if args[i] != a {
+				changed = true
+			}
+		}
+		if changed {
+			r = rebuild(t, args, t.Pats)
+		} else {
+			r = t
+		}
+	}
+	cache[t] = r
+	return r
+}
+
+// splitConj flattens conjunctions and negated implications / disjunctions
+func splitConj(t *Term, out *[]*Term) {
+	switch {
+	case t == True:
+	case t.Op == "and":
+		for _, a := range t.Args {
+			splitConj(a, out)
+		}
+	case t.Op == "not" && t.Args[0].Op == "=>":
+		splitConj(t.Args[0].Args[0], out)
+		splitConj(Not(t.Args[0].Args[1]), out)
+	case t.Op == "not" && t.Args[0].Op == "or":
+		for _, a := range t.Args[0].Args {
+			splitConj(Not(a), out)
+		}
+	default:
+		*out = append(*out, t)
+	}
+}
+
+// presimplify: equivalence-preserving rewriting of the assertion set before it
+// goes to the solvers. (1) x asserted finite is replaced by Fin(fv x), which
+// collapses extended-real operations on it to real arithmetic; (2) fv(v) = t
+// for an opaque v is used left to right; (3) ite conditions decided by an
+// asserted literal are resolved.
+func presimplify(asserts []*Term) []*Term {
+	for round := 0; round < 6; round++ {
+		var conj []*Term
+		for _, a := range asserts {
+			splitConj(a, &conj)
+		}
+		facts := map[*Term]bool{}
+		m := map[*Term]*Term{}
+		for _, c := range conj {
+			facts[c] = true
+		}
+		for _, c := range conj {
+			if c.Op == "(_ is Fin)" && c.closed() {
+				x := c.Args[0]
+				if x.Op != "Fin" && x.Op != "ite" {
+					m[x] = XFin(mk("fv", SReal, x))
+				}
+			}
+		}
+		for _, c := range conj {
+			if c.Op == "=" && c.closed() && c.Args[0].Sort == SReal {
+				for k := 0; k < 2; k++ {
+					a, b := c.Args[k], c.Args[1-k]
+					if a.Op == "fv" && a.Args[0].Op == "var" && b.Op != "fv" {
+						if _, dup := m[a]; !dup {
+							m[a] = b
+						}
+						break
+					}
+				}
+			}
+		}
+		changed := false
+		var next []*Term
+		cacheS := map[*Term]*Term{}
+		cacheI := map[*Term]*Term{}
+		for _, c := range conj {
+			n := c
+			if len(m) > 0 {
+				n = subst(n, m, cacheS)
+			}
+			// do not let a literal simplify itself away
+			f2 := facts
+			if facts[c] {
+				delete(facts, c)
+				n = rewriteIte(n, facts, map[*Term]*Term{})
+				facts[c] = true
+			} else {
+				n = rewriteIte(n, f2, cacheI)
+			}
+			if n != c {
+				changed = true
+				// keep the defining facts
+				if c.Op == "(_ is Fin)" || (c.Op == "=" && c.Args[0].Sort == SReal && n == True) {
+					next = append(next, c)
+				}
+			}
+			if n != True {
+				next = append(next, n)
+			}
+		}
+		asserts = next
+		if !changed {
+			break
+		}
+	}
+	return asserts
 }
 
 // hasQuant reports whether t contains a quantifier
@@ -367,6 +510,9 @@ func (p *Program) buildQueryOpt(o *Obligation, unfoldDepth int, filter bool) str
 	} else {
 		asserts = append(asserts, Not(o.Goal))
 	}
+	if allXReal(asserts) {
+		asserts = presimplify(asserts)
+	}
 	// type invariants of the heap arrays that occur
 	{
 		seenV := map[*Term]bool{}
@@ -388,6 +534,9 @@ func (p *Program) buildQueryOpt(o *Obligation, unfoldDepth int, filter bool) str
 			}
 		}
 	}
+	if o.NoUnfold {
+		unfoldDepth = 0
+	}
 	defs := p.unfoldDefs(asserts, unfoldDepth)
 	asserts = append(asserts, defs...)
 	asserts = append(asserts, mathAxioms(asserts)...)
@@ -395,6 +544,16 @@ func (p *Program) buildQueryOpt(o *Obligation, unfoldDepth int, filter bool) str
 	seen := map[*Term]bool{}
 	for _, a := range asserts {
 		collect(a, seen, func(t *Term) { allOps[t.Op] = true })
+	}
+	for _, a := range asserts {
+		collect(a, map[*Term]bool{}, func(t *Term) {
+			if strings.Contains(t.Sort.Name, "XReal") {
+				allOps["$xreal"] = true
+			}
+		})
+		if allOps["$xreal"] {
+			break
+		}
 	}
 	for round := 0; round < 3; round++ {
 		// opaque spec functions may mention further opaque functions
@@ -410,7 +569,11 @@ func (p *Program) buildQueryOpt(o *Obligation, unfoldDepth int, filter bool) str
 			break
 		}
 	}
-	txt := Script(asserts, basePrelude, func(used map[string]bool) string { return p.extraDecls(used, allOps) })
+	prelude := basePrelude
+	if allOps["$xreal"] {
+		prelude += xrealPrelude
+	}
+	txt := Script(asserts, prelude, func(used map[string]bool) string { return p.extraDecls(used, allOps) })
 	return txt + "(check-sat)\n"
 }
 
@@ -554,6 +717,9 @@ func dischargeAll(p *Program, obls []*Obligation, cfg *SolveConfig) {
 			o.Detail = err.Error()
 			continue
 		}
+		if nq := p.buildNRAQuery(o); nq != "" {
+			os.WriteFile(file+".nra", []byte("; "+o.Name+" (real-arithmetic abstraction)\n"+nq), 0o644)
+		}
 		if !o.ExpectSat {
 			qf := p.buildQueryOpt(o, 2, true)
 			if qf != q {
@@ -608,6 +774,34 @@ func solveFile(o *Obligation, file string, cfg *SolveConfig) {
 		return false
 	}
 	if !o.ExpectSat {
+		if _, err := os.Stat(file + ".nra"); err == nil {
+			// real-arithmetic abstraction (an unsat answer is sound; anything else is ignored)
+			ch := make(chan solveResult, 3)
+			cctx, cancel := context.WithCancel(ctx)
+			keys := []string{"z3", "z3new", "cvc5"}
+			for _, k := range keys {
+				go func(k string) { ch <- runSolver(cctx, k, file+".nra", cfg.t1) }(k)
+			}
+			var win *solveResult
+			for range keys {
+				r := <-ch
+				if r.verdict == "unsat" && win == nil {
+					rr := r
+					win = &rr
+					cancel()
+				}
+			}
+			cancel()
+			if win != nil && !cfg.allAgree {
+				record(*win)
+				o.Verdict, o.Solver, o.Secs = "unsat", win.solver, win.secs
+				o.Detail = fmt.Sprintf("%s=unsat(%.2fs) on the real-arithmetic abstraction %s.nra", win.solver, win.secs, file)
+				tally.Lock()
+				tally.bySolver[o.Solver]++
+				tally.Unlock()
+				return
+			}
+		}
 		if _, err := os.Stat(file + ".rel"); err == nil {
 			// first attempt: reduced hypothesis set (an unsat answer is sound; anything else is ignored)
 			ch := make(chan solveResult, 2)
@@ -689,6 +883,32 @@ func solveFile(o *Obligation, file string, cfg *SolveConfig) {
 	tally.Lock()
 	tally.bySolver[o.Solver]++
 	tally.Unlock()
+}
+
+func containsTerm(t, sub *Term) bool {
+	found := false
+	collect(t, map[*Term]bool{}, func(x *Term) {
+		if x == sub {
+			found = true
+		}
+	})
+	return found
+}
+
+func allXReal(ts []*Term) bool {
+	found := false
+	seen := map[*Term]bool{}
+	for _, t := range ts {
+		collect(t, seen, func(x *Term) {
+			if x.Sort == SXReal {
+				found = true
+			}
+		})
+		if found {
+			return true
+		}
+	}
+	return false
 }
 
 func flattenAnd(t *Term) []*Term {
